@@ -17,6 +17,11 @@ CLAIMED = {
    note="Trusted: the BTreeSet model and the membership walker (does not call contains). b <= 4 bits, <= 4 sets, <= 60 steps."),
 }
 
+CLAIMED["C12"] = dict(engine="iosim", design="4.5",
+   technique="deterministic simulation with fault injection on the input/output stream seams: stored-input corruption (bit flips, drops, splices, bad UTF-8, extreme numerals) delivered through chunking/EINTR/hard-error read plans, DOT output into short-write/error write plans; oracle: no panic, injected errors surface as Err",
+   text="Seeded stored inputs (generated formulas, repository texts, token soups, random bytes, handcrafted edge texts) with 0-4 storage faults and optional corrupted ordering files are delivered through fault-injecting readers to tokenize / ParsedFormula::new; then eval under a tick budget, model, retain, the CLI's table walk and both DOT exporters (into a fault-injecting writer) run under catch_unwind. Any panic other than the budget marker is a violation, reported with location; injected hard I/O errors must come back as Err. Exploration level.",
+   note="Build: optimised with overflow-checks (= the dev profile's arithmetic, in which the pinned test suite runs). Inputs above the conservative nesting bound 200 or exhausting the tick budget are executed but unjudged. Output-side failure of stdout is outside the property.")
+
 NOT_APPLICABLE = {
 }
 
